@@ -610,8 +610,9 @@ def plainAll (fuel : Nat) (v : JV N) : JV N :=
     | .obj fs => .obj (fs.map fun (k, x) => (k, plainAll fuel x))
     | v => v
 
-/-- succinctly re-reads the `reduce`/`foreach` state from its printed form at every step, so a
-double that prints as an integer continues as an exact integer (recorded C24 finding). -/
+/-- succinctly re-reads the `reduce`/`foreach` state from its printed form whenever it is the input
+of an update / extract expression (not when it is emitted), so a double that prints as an integer
+continues as an exact integer (recorded C24 finding). -/
 def reparseAll (fuel : Nat) (v : JV N) : JV N :=
   match fuel with
   | 0 => v
@@ -1092,6 +1093,20 @@ def userFold : Pattern → Bool
   | .var n => !(["p", "x", "i", "item", "q"].contains n)
   | _ => true
 
+/-- the expression shapes succinctly answers directly on the in-memory `reduce`/`foreach` state
+(`eval_owned_fast_path`: bare `.`, `.name`, `.[n]`, `tostring`); every other update / extract
+expression sees the state re-read from its printed form -/
+def foldFastPath : Expr → Bool
+  | .identity => true
+  | .index .identity (.lit (.str _)) false => true
+  | .index .identity (.lit (.num _)) false => true
+  | .call "tostring" [] => true
+  | _ => false
+
+/-- the state as the update / extract expression `e` of a user-written fold sees it -/
+def foldView (d : Dialect) (pat : Pattern) (e : Expr) (v : JV N) : JV N :=
+  if d.succinctly && userFold pat && !foldFastPath e then reparseAll 200 v else v
+
 def evalStep (d : Dialect) (rec : Rec N) (e : Expr) (env : Env N) (v : JV N) (p : PInfo N) :
     Option (List (Out N)) :=
   match e with
@@ -1222,12 +1237,12 @@ def evalStep (d : Dialect) (rec : Rec N) (e : Expr) (env : Env N) (v : JV N) (p 
         match bindPat pat x xp env with
         | .error m => if m.startsWith "UNMODELLED" then none else some (st, [.err (.str m)])
         | .ok env' => do
-          let r ← rec upd env' st.1 st.2
+          let r ← rec upd env' (foldView d pat upd st.1) st.2
           match terminatorOf r with
           | some t => pure (st, [t])
           | none =>
             match r.getLast? with
-            | some (.val nv np) => pure ((if d.succinctly && userFold pat then reparseAll 200 nv else nv, np), [])
+            | some (.val nv np) => pure ((nv, np), [])
             | _ => pure ((JV.null, st.2.drop), []))
       if terminated outs then pure outs else pure [.val st.1 st.2])
   | .foreach src pat init upd ext =>
@@ -1239,13 +1254,12 @@ def evalStep (d : Dialect) (rec : Rec N) (e : Expr) (env : Env N) (v : JV N) (p 
         match bindPat pat x xp env with
         | .error m => if m.startsWith "UNMODELLED" then none else some (st, [.err (.str m)])
         | .ok env' => do
-          let r ← rec upd env' st.1 st.2
-          foldOut r (JV.null, st.2.drop) (fun _ u0 up =>
-            let u := if d.succinctly && userFold pat then reparseAll 200 u0 else u0
+          let r ← rec upd env' (foldView d pat upd st.1) st.2
+          foldOut r (JV.null, st.2.drop) (fun _ u up =>
             match ext with
             | none => some ((u, up), [.val u up])
             | some x => do
-              let er ← rec x env' u up
+              let er ← rec x env' (foldView d pat x u) up
               pure ((u, up), er)))
       pure outs)
   | .label name body => do
